@@ -2728,12 +2728,72 @@ func c19r17(c *Ctx, r *Report) {
 		"a callback clears a flag of readFiles", "no callback clears a flag of readFiles: nothing distinguishes the root from what is met below it")
 }
 
+// c03r12: the bonus of a position is bonusMatrix[class before][class at]; in front of the first character stands
+// initialCharClass (white space in the default scheme, a delimiter in the path scheme). All matchers follow that;
+// bonusAt — from which the boundary-term matcher takes its score — has to as well (D100: it returned the
+// constant bonusBoundaryWhite for index 0: in the path scheme `'foo'` scored the whole line `foo` 88 and
+// `a/foo` 89, so the exact line was ranked below longer ones).
+func c03r12(c *Ctx, r *Report) {
+	l := c.L
+	r.rule("C03-R12", "E (one bonus table for every position)", "P1",
+		"every value bonusAt returns is read from bonusMatrix, and on the paths with idx == 0 the row is initialCharClass",
+		"a term of the boundary kind scores the start of a line by another bonus than the fuzzy, exact and prefix matchers do: under --scheme=path the complete match ranks below matches after a slash")
+	fn := l.Fn("algo", "bonusAt")
+	gm := l.Global("algo", "bonusMatrix")
+	gi := l.Global("algo", "initialCharClass")
+	if fn == nil || gm == nil || gi == nil || len(fn.Params) < 2 {
+		r.unest("anchors", token.NoPos, nil, "anchors bonusAt / bonusMatrix / initialCharClass", "cannot resolve")
+		return
+	}
+	pc := pathConds(fn)
+	idx := fn.Params[1]
+	n := 0
+	eachInstr(fn, func(in ssa.Instruction) {
+		ret, ok := in.(*ssa.Return)
+		if !ok || len(ret.Results) != 1 {
+			return
+		}
+		n++
+		// *(&(&bonusMatrix[row])[col])
+		var row ssa.Value
+		if u, ok := ret.Results[0].(*ssa.UnOp); ok && u.Op == token.MUL {
+			if ia, ok := u.X.(*ssa.IndexAddr); ok {
+				if ib, ok := ia.X.(*ssa.IndexAddr); ok && ib.X == ssa.Value(gm) {
+					row = ib.Index
+				}
+			}
+		}
+		if !r.check(row != nil, fmt.Sprintf("%s:return #%d reads bonusMatrix", relName(fn), n), ret.Pos(), fn,
+			"bonusMatrix[row][col]", "the bonus returned is "+describe(ret.Results[0])+", not an entry of bonusMatrix") {
+			return
+		}
+		atStart, reach := pc.Implies(ret.Block(), func(lits []Lit) bool {
+			for _, lt := range lits {
+				x, op, k, ok := cmpInt(lt.Atom)
+				if ok && x == ssa.Value(idx) && k == 0 && ((op == token.EQL && lt.Val) || (op == token.NEQ && !lt.Val)) {
+					return true
+				}
+			}
+			return false
+		})
+		if atStart && reach {
+			u, ok := row.(*ssa.UnOp)
+			good := ok && u.Op == token.MUL && u.X == ssa.Value(gi)
+			r.check(good, fmt.Sprintf("%s:return #%d at index 0 uses the row of initialCharClass", relName(fn), n), ret.Pos(), fn,
+				"row = initialCharClass", "the row used for the first position is "+describe(row)+", not initialCharClass")
+		}
+	})
+	r.floor("returns of bonusAt", n, 2)
+}
+
 func round10(c *Ctx, r *Report, prop string) {
 	switch prop {
 	case "C01":
 		c01r15(c, r)
 		c08r5(c, r)  // a result for an incompatible revision is never applied to the list that is shown
 		c02r14(c, r) // the bonus constants keep their documented order
+	case "C03":
+		c03r12(c, r)
 	case "C04":
 		c04r17(c, r)
 		c08r5(c, r)
